@@ -93,21 +93,3 @@ class C01(HistoryProperty):
             res.seen("opkinds", [op.get("mut") for op in case["ops"]])
             res.sample = self.sample_of(case)
         return res
-
-
-    def signature(self, case, violation):
-        if gen.scalar_at_section_prefix(case["spec"], [op["o"] for op in case["ops"] if "o" in op]):
-            return "scalar-at-section-prefix"
-        return None
-
-    def known_probes(self):
-        spec = {
-            "nodes": [
-                {"id": "n1", "k": "val", "v": 2},
-                {"id": "n2", "k": "opt", "key": "S.T.U", "default": {"t": "expr", "n": "n1"}},
-                {"id": "n8", "k": "dataset", "name": "D2", "args": {}, "dispatch": {"n": "n2"}, "overloads": [[2, {"n": "n1"}]]},
-            ],
-            "roots": ["n8"],
-        }
-        ops = [{"op": "evaluate", "node": "n8", "o": {"S": 2}}, {"op": "evaluate", "node": "n8", "o": {}}]
-        return [("KF-scalar-at-section-prefix", {"cfg": {}, "spec": spec, "ops": ops})]
